@@ -436,6 +436,8 @@ def run(ctx):
               'the sum is representable: sizes that add up to 2^64 or more wrap, and chunks are reported (and read) at '
               'offsets that are not the sum of the stored sizes' % (o.wraps[0][1],), ir.file,
               o.wraps[0][0].line if o.wraps else ir.line, config=config)
+        from ..rules import extra as _x
+        _x.check_reader_data_offset(ck, prog, config, 'C13-e')
         # ---- f
         cf = prog.need_func('check_flags')
         gf = prog.need_func('get_flags')
